@@ -207,6 +207,17 @@ def mon_C01(ops, results):
                     out.append(viol("C01.read-returns-last-write", i, "GetExpiry=%s vs stored %s" % (d.get("ge"), d.get("row.exp"))))
                 if not d.get("gwx", "").startswith("ok:%s:%s:" % (body, cas)):
                     out.append(viol("C01.read-returns-last-write", i, "GetWithXattrs=%s vs stored %s cas %s" % (d.get("gwx"), body, cas)))
+        elif name == "fire":
+            # the only thing an expiry sweep may change is a document whose expiry is due
+            rbs, _ = following(ops, results, i)
+            for key, after in rbs.items():
+                before = last.get(key)
+                if before is None or absent(before):
+                    continue
+                e = int(before.get("row.exp", "0"))
+                if not (0 < e <= now) and row_of(before) != row_of(after):
+                    out.append(viol("C01.changed-without-a-mutation", i, "%s/%s (expiry %d, now %d) reads differently after an expiry sweep: %s -> %s" % (
+                        key[0], key[1], e, now, row_of(before), row_of(after))))
         elif name in MUTATORS and len(pos) >= 2:
             rf = res_fields(res)
             rbs, _ = following(ops, results, i)
@@ -367,6 +378,11 @@ def mon_C02(ops, results):
         if name not in MUTATORS or len(pos) < 2 or res.startswith("r=panic"):
             continue
         exp_cas = cond_cas(name, args)
+        if exp_cas is None and name == "wcas" and int(arg(args, "cas", "0")) == 0 and not int(arg(args, "opt", "0")) & 2:
+            # "0 = no such document": a WriteCas with CAS 0 must be refused while a live document exists
+            b0 = last.get((pos[0], pos[1]), {"row": "row=0"})
+            if succeeded(name, res_fields(res)) and has_body(b0):
+                out.append(viol("C02.cas-zero-means-no-document", i, "wcas with CAS 0 succeeded over the live document %s" % b0.get("row.v")))
         if exp_cas is None:
             continue
         key = (pos[0], pos[1])
@@ -520,7 +536,11 @@ def mon_C08(ops, results):
 def mon_C09(ops, results):
     out = []
     live_seen = {}      # (coll, key, cas) -> the event a live (full) feed delivered for that mutation
+    seen_at = {}        # (coll, key, cas) -> index of the drain that showed it
+    touched_at = {}     # (coll, key) -> index of the last touch (changes expiry and revision without a new CAS)
     for i, name, pos, args, res, last, feeds in Trace(ops, results).steps():
+        if name in ("touch", "gat") and len(pos) >= 2:
+            touched_at[(pos[0], pos[1])] = i
         if name == "drain" and pos and pos[0] in feeds and not feeds[pos[0]]["dump"] and not feeds[pos[0]]["keysonly"]:
             inbf = False
             for t in res.split(" "):
@@ -531,6 +551,7 @@ def mon_C09(ops, results):
                 elif t.startswith("ev:{") and not inbf:
                     e = ev_fields(t)
                     live_seen[(feeds[pos[0]]["coll"], e.get("k"), e.get("cas"))] = e
+                    seen_at[(feeds[pos[0]]["coll"], e.get("k"), e.get("cas"))] = i
         if name != "drain" or not pos or pos[0] not in feeds or not feeds[pos[0]]["dump"]:
             continue
         f = feeds[pos[0]]
@@ -543,7 +564,14 @@ def mon_C09(ops, results):
                 e = ev_fields(t)
                 le = live_seen.get((f["coll"], e.get("k"), e.get("cas")))
                 if le is not None:
-                    diff = [g for g in ("op", "dt", "v", "x") if e.get(g) != le.get(g)]   # a touch changes expiry and revision without a new CAS
+                    fields = ["op", "dt", "v", "x"]
+                    lk = (f["coll"], e.get("k"), e.get("cas"))
+                    # mutations made after the live drain that showed the event: a touch changes expiry and revision without a new CAS
+                    later_touch = any(parse_op(ops[j])[0] in ("touch", "gat") and parse_op(ops[j])[1][:2] == [f["coll"], e.get("k")]
+                                      for j in range(max(0, seen_at.get(lk, 0) - 3), i))
+                    if not later_touch:
+                        fields += ["exp", "rev"]
+                    diff = [g for g in fields if e.get(g) != le.get(g)]
                     if diff:
                         out.append(viol("C09.backfill-event-equals-live-event", i, "mutation %s/%s cas %s: backfill delivers %s, the live feed delivered %s (differs in %s)" % (
                             f["coll"], e.get("k"), e.get("cas"), {g: e.get(g) for g in diff}, {g: le.get(g) for g in diff}, diff)))
@@ -1211,7 +1239,7 @@ def mon_C14(ops, results):
                                 out.append(viol("C14.expiry-produces-deletion-event", i, "no deletion event for expired %s/%s on feed %s" % (key[0], key[1], fid)))
                 elif row_of(before) != row_of(after):
                     out.append(viol("C14.not-due-documents-untouched", i, "%s/%s (exp %d, now %d) changed by the sweep" % (key[0], key[1], e, now)))
-        if name in ("set", "add", "touch", "gat", "wcas", "incr", "delete", "remove") and len(pos) >= 2 and not res.startswith("r=panic"):
+        if name in ("set", "add", "touch", "gat", "wcas", "incr", "delete", "remove", "delx") and len(pos) >= 2 and not res.startswith("r=panic"):
             rf = res_fields(res)
             if not succeeded(name, rf):
                 continue
@@ -1221,7 +1249,7 @@ def mon_C14(ops, results):
                 continue
             e = int(arg(args, "exp", "0"))
             want = e + now if 0 < e <= MAX_DELTA else e
-            if name in ("delete", "remove"):
+            if name in ("delete", "remove", "delx"):
                 want = 0
             if name == "wcas" and arg(args, "v") is None:
                 continue
